@@ -513,6 +513,24 @@ public:
       o["k"] = "lambda";
       if (const CXXMethodDecl* MD = L->getCallOperator()) o["f"] = FN(MD);
       o["ncap"] = (int)L->capture_size();
+      json::Array caps;
+      for (const LambdaCapture& C : L->captures()) {
+        json::Object c;
+        c["by"] = C.getCaptureKind() == LCK_ByRef ? "ref" : (C.capturesThis() ? "this" : "copy");
+        if (C.capturesVariable()) {
+          if (const auto* P = dyn_cast<ParmVarDecl>(C.getCapturedVar())) {
+            c["k"] = "parm";
+            c["i"] = (int)P->getFunctionScopeIndex();
+            if (const auto* OF = dyn_cast_or_null<FunctionDecl>(P->getDeclContext())) c["fn"] = FN(OF);
+          } else if (const auto* VD = dyn_cast<VarDecl>(C.getCapturedVar())) {
+            c["k"] = "local";
+            c["i"] = LOCAL(VD);
+          }
+          c["n"] = C.getCapturedVar()->getNameAsString();
+        }
+        caps.push_back(std::move(c));
+      }
+      o["caps"] = std::move(caps);
       return std::move(o);
     }
     if (const auto* TE = dyn_cast<CXXThrowExpr>(X)) {
